@@ -348,7 +348,9 @@ class Ctx:
         os.makedirs(os.environ.get("VERIF_EVIDENCE_DIR", os.path.join(VERIF, "evidence")), exist_ok=True)
         known = [k for k in load_known() if k.get("property") == self.prop and k.get("status") == "known"]
         # a broken obligation with no concrete violation found is still a violation
-        if self.broken and not any(v["found"] for v in self.violations):
+        # (a concrete violation that is a listed known finding does not account for a broken obligation: only an unlisted one does)
+        knownkeys = {k.get("key") for k in known}
+        if self.broken and not any(v["found"] and v["key"] not in knownkeys for v in self.violations):
             names = ", ".join(f"{b['kind']}:{b['name']}" for b in self.broken)
             self.violations.append({"key": "unproved:" + names, "what": "obligation(s) no longer check: " + names,
                                     "replay": {"broken": self.broken}, "found": False})
